@@ -410,6 +410,11 @@ TIES = {
                      theorems=['expect_death_eq', 'expect_death_tie', 'null_on_move_assign_ptr_tie', 'null_on_move_assign_copy_tie',
                                'null_on_move_assign_move_tie'],
                      cxx='chain_lifetime_monitor, deathwatched<T>::trompeloeil_expect_death (lifetime.hpp), null_on_move<T>::operator= (mock.hpp)'),
+    'Coro': dict(props=['C20'], gen=['HandleCoYield', 'HandleCoReturn', 'HandleCoThrow', 'CoBody'],
+                 theorems=['co_body_tie', 'handle_co_yield_eq', 'handle_co_return_eq', 'handle_co_throw_eq', 'handle_invalid', 'fold_shared',
+                           'registered_tie', 'registered_eq_ofClauses'],
+                 cxx='handle_co_yield / handle_co_return / handle_co_throw ::action (registration of the CO_ clauses, shared yield list) '
+                     'and co_return_handler_t::call (the coroutine body) (coro.hpp)'),
     'Ring': dict(props=['C14'], gen=['RingUnlink', 'RingElemDtor', 'RingMoveAssign', 'RingPushFront', 'RingPushBack', 'RingBegin', 'RingEnd',
                                     'RingIterIncr', 'RingIsLinked', 'RingListDtor'],
                  theorems=['ring_unlink_tie', 'ring_elem_dtor_tie', 'ring_move_assign_tie', 'ring_push_front_tie', 'ring_push_back_tie',
